@@ -40,6 +40,69 @@ def _resume_shape(exprs: list[ast.AST], out_names: set[str] = frozenset()) -> di
     return {"every data output present in state.values": bool(presence) and in_all and over_outputs, "node not yet executed": not_executed}
 
 
+def response_normalisers(ctx):
+    """(function, response parameter, outputs parameter) for the functions of the interrupt executor's module that
+    turn a handler's response into the node's outputs (found by what they are handed, not by name)."""
+    db = ctx.db
+    call = db.cls("runners.async_.executors.interrupt_node.AsyncInterruptNodeExecutor").methods["__call__"]
+    rvars = set(vars_from_call(db, call, {"_call_handler"})) or {"response"}
+    out_names = {nm for nm, ds in db.local_defs(call).items() if any(getattr(d, "value", None) is not None and src(d.value).endswith(".data_outputs") for d in ds)}
+    norm = []
+    for c in db.calls_in(call):
+        for a in c.args:
+            if isinstance(a, ast.Name) and a.id in rvars:
+                for cal in db.resolve_call(c, call):
+                    if cal.func is not None and cal.kind == "func" and cal.func.module == call.module and not is_user_func_call(db, c, call):
+                        b = bind_args(c, cal.func)
+                        rp = next((k for k, v in b.items() if v is a), None)
+                        op = next((k for k, v in b.items() if isinstance(v, ast.Name) and v.id in out_names or src(v).endswith(".data_outputs")), None)
+                        if rp:
+                            norm.append((cal.func, rp, op))
+    return norm
+
+
+def check_handler_dict_translated(ctx, rule_translated: str | None, rule_fresh: str | None) -> None:
+    """A multi-output handler answers with a dict keyed by the output names it was declared with.  On that branch the
+    mapping that is validated and returned is (a) translated through the node's output renames and (b) a new dict —
+    never the handler's own object (emit sentinels are written into the returned dict afterwards)."""
+    db, rep = ctx.db, ctx.rep
+    norm = response_normalisers(ctx)
+    if not norm:
+        raise AnalysisError("response normaliser not recognised")
+    for nf, rp, op in norm:
+        ncfg = ctx.cfg(nf)
+        rd = reaching_defs(ncfg)
+        val = {f"isinstance({rp}, dict)": True}
+        if op:
+            val.update({f"len({op}) > 1": True, f"not {op}": False, op: True})
+        live = reachable(ncfg.entry, specialize(val, ncfg))
+        rets = [n for n in live if n.kind == "stmt" and isinstance(n.ast, ast.Return) and isinstance(n.ast.value, ast.Name)]
+        # single-assignment locals that derive from the rename history
+        hist = {nm for nm, ds in db.local_defs(nf).items() if any(getattr(d, "value", None) is not None and ("_rename_history" in src(d.value) or "rename_map" in src(d.value).lower() or "map_outputs" in src(d.value)) for d in ds)}
+        for _ in range(2):
+            hist |= {nm for nm, ds in db.local_defs(nf).items() if any(getattr(d, "value", None) is not None and any(isinstance(x, ast.Name) and x.id in hist for x in ast.walk(d.value)) for d in ds)}
+        own, untranslated = [], []
+        for r in rets:
+            for d, v in defs_reaching(ncfg, rd, r, r.ast.value.id):
+                if d is ncfg.entry or v is None:
+                    if r.ast.value.id == rp:
+                        own.append(r)
+                        untranslated.append(r)
+                    continue
+                if not isinstance(v, (ast.DictComp, ast.Dict)) and not (isinstance(v, ast.Call) and dotted(v.func) == "dict"):
+                    if any(isinstance(x, ast.Name) and x.id == rp for x in ast.walk(v)) and isinstance(v, ast.Name):
+                        own.append(r)
+                if not (any(isinstance(x, ast.Name) and x.id in hist for x in ast.walk(v)) or "map_outputs" in src(v)):
+                    if any(isinstance(x, ast.Name) and x.id == rp for x in ast.walk(v)):
+                        untranslated.append(r)
+        if rule_translated:
+            ok = bool(rets) and not untranslated
+            rep.add(rule_translated, f"{nf.qname}:handler-dict-under-current-names", ok, f"{nf.module.rel}:{untranslated[0].lineno if untranslated else nf.lineno}", "a handler's dict answer is translated through the node's output renames before it is validated and returned" if ok else "a handler's dict answer (keyed by the output names the handler was written with) is validated against and returned under the node's current output names without translation: after with_outputs(a='c', b='d') the answer is rejected, after a swap a<->b the values end up under the wrong names")
+        if rule_fresh:
+            ok = bool(rets) and not own
+            rep.add(rule_fresh, f"{nf.qname}:handler-dict-not-returned-itself", ok, f"{nf.module.rel}:{own[0].lineno if own else nf.lineno}", "the returned mapping is a new dict" if ok else "the handler's own dict object is returned and the emit sentinels are then written into it: a handler returning a shared/constant dict finds the signal names in it on its next call and the run fails ('incorrect keys ... Extra')")
+
+
 def check_resume_bypasses_cache(ctx, rule: str) -> None:
     """The superstep that can be handed interrupt nodes consults/writes the node cache only when the node is not an
     interrupt being resumed; the condition it uses agrees with the executor's own resume condition."""
